@@ -322,6 +322,7 @@ func init() {
 		Streams: []Stream{
 			{Name: "shapes", Setup: c19Setup, N: func(c *Ctx) int { return len(c19Shapes) }, Run: c19ShapesRun, Exhaustive: true},
 			{Name: "joins", N: func(c *Ctx) int { return joinN() }, Run: joinModel("C19", false), Exhaustive: true},
+			{Name: "wide-joins", N: func(c *Ctx) int { return wideJoinN() }, Run: wideJoinRun("C19"), Exhaustive: true},
 			{Name: "hash-hostile-names", N: func(c *Ctx) int { return hashNamesN() }, Run: hashNamesRun("C19"), Exhaustive: true},
 			{Name: "wide-let", N: func(c *Ctx) int { return len(wideLetSizes) }, Run: wideLetRun("C19"), Exhaustive: true},
 			{Name: "towers", Setup: c19Setup, N: c19TowersN, Run: c19Towers},
